@@ -136,6 +136,36 @@ func allEntries(h *hdrAPI) string {
 	return strings.Join(out, ",")
 }
 
+// ordEntriesSent is ordEntries without the fields whose names the header announces in Trailer: those are sent
+// after the body, not in the header block.
+func ordEntriesSent(h *hdrAPI, dis bool) string {
+	// with normalisation on both the announcement and the stored name are canonical; with normalisation off the
+	// implementation matches the announced name byte for byte (a differently spelled field stays in the header block)
+	fold := func(s string) string {
+		if dis {
+			return s
+		}
+		return strings.ToLower(s)
+	}
+	announced := map[string]bool{}
+	for _, v := range h.peekAll(B("Trailer")) {
+		for _, t := range strings.Split(string(v), ",") {
+			if t = fold(strings.TrimSpace(t)); t != "" {
+				announced[t] = true
+			}
+		}
+	}
+	var out []string
+	for _, kv := range h.all() {
+		n := strings.ToLower(string(kv[0]))
+		if c29Special[n] || announced[fold(string(kv[0]))] {
+			continue
+		}
+		out = append(out, H(kv[0])+"="+H(kv[1]))
+	}
+	return strings.Join(out, ",")
+}
+
 func ordEntries(h *hdrAPI) string {
 	var out []string
 	for _, kv := range h.all() {
@@ -354,8 +384,8 @@ func init() {
 						}
 					}
 				}
-				if verdict == nil && !touchedTrailer {
-					// write -> parse: ordinary fields come back with the same values in the same order
+				if verdict == nil {
+					// write -> parse: ordinary fields (those not announced as trailers) come back with the same values in the same order
 					if !resp {
 						h.set(B("Host"), B("example.com"))
 					}
@@ -363,7 +393,7 @@ func init() {
 					h2, err := h.reparse(wire, dis)
 					if err != nil {
 						verdict = &Verdict{VSpec, "write-read-error", fmt.Sprintf("resp=%v dis=%v ops=%s: serialised header %q does not parse: %v", resp, dis, showOps(ops), wire, err)}
-					} else if x, y := ordEntries(h), ordEntries(h2); x != y {
+					} else if x, y := ordEntriesSent(h, dis), ordEntries(h2); x != y {
 						key := "write-read-fields"
 						if sameMultiset(x, y) {
 							key = "write-read-order"
@@ -384,7 +414,9 @@ func init() {
 			if tier == "thorough" {
 				n = 300000
 			}
-			vals := [][]byte{B("1"), B("2"), B("a b"), B("x"), B("close"), B("5"), B("text/x; q=1"), B("k=v"), B("k=w; Path=/a"), B("sid=1"), B("sid=2; Path=/b")}
+			vals := [][]byte{B("1"), B("2"), B("a b"), B("x"), B("close"), B("5"), B("text/x; q=1"), B("k=v"), B("k=w; Path=/a"), B("sid=1"), B("sid=2; Path=/b"),
+				// as values of Trailer these announce names that are also stored as ordinary fields
+				B("X-A"), B("X-B, Accept"), B("foo-bar")}
 			for i := 0; i < 2*n; i++ {
 				kind := "ord"
 				names := ordNames
